@@ -52,6 +52,16 @@ class SArr(ZArr):
 
 TRACK_VALUES = [False]
 
+
+class RV1(ZArr):
+    """1-D real array with an element function (the singular values), only with TRACK_VALUES"""
+    is_rv1 = True
+    def __init__(self, n, a, origin=None):
+        ZArr.__init__(self, (n,), 'real', None, None)
+        self.a = a; self.origin = origin
+    def havoc(self):
+        return RV1(self.shape[0], z3.Function(f'hs{next(_n)}', I, z3.RealSort()), origin=('havoc',))
+
 def fresh_val(name='val'):
     return z3.Function(f'{name}{next(_n)}', I, I, z3.RealSort())
 
@@ -178,7 +188,9 @@ def np_svd(ex, st, node, args, kw):
         info.update(Q=us, R=vs)
         a_, b_ = z3.Ints('a_ b_')
         st.pc += [z3.ForAll([a_, b_], z3.Implies(us.val(a_, b_) != 0, us.nz(a_, b_))), z3.ForAll([a_, b_], z3.Implies(vs.val(a_, b_) != 0, vs.nz(a_, b_)))]
-        return (us, ZArr((k,), 'real'), vs)
+        ss = RV1(k, z3.Function(f'ssub{next(_n)}', I, z3.RealSort()), origin=('lapack', info))
+        info['S'] = ss
+        return (us, ss, vs)
     return (SArr((p, k), kd, fresh_nz('nzus')), ZArr((k,), 'real'), SArr((k, r), kd, fresh_nz('nzvs')))
 
 def np_norm(ex, st, node, args, kw):
@@ -191,6 +203,14 @@ class NormOf:
     def __init__(self, a): self.a = a
 
 def q_getitem(ex, st, node, base, key):
+    if getattr(base, 'is_rv1', False):
+        plain = q_getitem(ex, st, node, ZArr(base.shape, 'real'), key)
+        if isinstance(key, slice) and getattr(plain, 'is_zarr', False):
+            _, lo, _ = slice_len(key, base.shape[0])
+            return RV1(plain.shape[0], lambda c, b=base, lo=lo: b.a(c + lo), origin=('view', base, ('shift', lo)))
+        if isinstance(key, IArr) and getattr(plain, 'is_zarr', False):
+            return RV1(plain.shape[0], lambda c, b=base, k=key: b.a(k.a(c)), origin=('view', base, ('gather', key)))
+        return plain
     if isinstance(base, IArr):
         if isinstance(key, IArr):           # gather
             out = fi('g'); k = z3.Int('k')
@@ -254,6 +274,10 @@ def q_getitem(ex, st, node, base, key):
     return z_getitem(ex, st, node, base, key)
 
 def q_setitem(ex, st, node, base, key, v):
+    if getattr(base, 'is_rv1', False) and isinstance(key, slice) and getattr(v, 'is_rv1', False):
+        q_setitem(ex, st, node, ZArr(base.shape, 'real'), key, ZArr(v.shape, 'real'))          # index / shape obligations
+        lo, hi = zint(key.start), zint(key.stop)
+        return RV1(base.shape[0], lambda c, b=base, lo=lo, hi=hi, v=v: z3.If(z3.And(c >= lo, c < hi), v.a(c - lo), b.a(c)), origin=('store', base, (lo, hi), v))
     if isinstance(base, MArr) and isinstance(key, slice) and (is_z(v) or isinstance(v, int)):
         n = zint(base.n); lo, hi = zint(key.start), zint(key.stop)
         oblige(ex, st, node, 'index', f'{ast.unparse(node)[:50]}: slice within bounds', z3.And(lo >= 0, hi <= n, lo <= hi))
@@ -337,6 +361,8 @@ def np_zeros_q(ex, st, node, args, kw):
     z = np_zeros(ex, st, node, args[:1], {'dtype': dt} if dt is not None else {})
     if getattr(z, 'is_zarr', False) and z.ndim == 2:
         return SArr(z.shape, z.kind, lambda i, j: z3.BoolVal(False), val=(lambda i, j: z3.RealVal(0)) if TRACK_VALUES[0] else None, origin=('zeros',))
+    if TRACK_VALUES[0] and getattr(z, 'is_zarr', False) and z.ndim == 1 and z.kind == 'real':
+        return RV1(z.shape[0], lambda c: z3.RealVal(0), origin=('zeros',))
     return z
 
 class IArrDtype:
@@ -510,7 +536,18 @@ def K_retained(ex, st, node, args, kw):
     nn = zint(s.shape[0])
     st.pc += [cnt >= 0, cnt <= nn, z3.ForAll([k], z3.Implies(rng(k, cnt), rng(w(k), nn))),
               z3.ForAll([k, l], z3.Implies(z3.And(0 <= k, k < l, l < cnt), w(k) < w(l)))]
-    return IArr(w, cnt, {'retained': True})
+    out = IArr(w, cnt, {'retained': True})
+    if getattr(s, 'is_rv1', False):
+        # the rest of the contract proved in vt/ztrunc.py: the result enumerates exactly the kept indices, and with tol == 0
+        # only exact zeros are discarded (`tol0_discards_only_zeros`; the zero-vector path returns the empty vector)
+        kept = z3.Function(f'kept{next(_n)}', I, z3.BoolSort()); pos = fi('kpos'); c = z3.Int('c')
+        tol = args[1] if len(args) > 1 else None
+        st.pc += [z3.ForAll([k], z3.Implies(rng(k, cnt), kept(w(k)))),
+                  z3.ForAll([c], z3.Implies(z3.And(rng(c, nn), kept(c)), z3.And(rng(pos(c), cnt), w(pos(c)) == c)))]
+        if tol is not None and is_z(tol):
+            st.pc.append(z3.Implies(tol == 0, z3.ForAll([c], z3.Implies(z3.And(rng(c, nn), z3.Not(kept(c))), s.a(c) == 0))))
+        out.tags['kept'] = kept; out.tags['pos'] = pos; out.tags['of'] = s; out.tags['tol'] = tol
+    return out
 
 
 def verify(prop, kind='complex'):
